@@ -341,3 +341,22 @@ example : (normJ (.node .object false (.cons "Name" (.nlv [([101, 110], [120])])
   simp [normJ, normX, normXFields, normXVal, normXItems, collapse, isNilItem, Item.beq, Fields.beq, FVal.beq, dash]
 
 end APModel.Codec
+
+namespace APModel.Deep
+open APModel APModel.Codec
+
+/-- C05 fixpoint on the deep model (the library's writer and reader on JSON trees, with the regenerated
+tables): take ANY JSON document j; if the value d it decodes to is well formed (and so is its normal
+form), then encoding d and decoding again yields the normal form of d, and doing it once more changes
+nothing — the second round trip is the identity on what the first produced. -/
+theorem C05_deep_fixpoint (j : J) (h1 : wfItem envJson (readTop envJson j) = true)
+    (h2 : wfItem envJson (normJ (readTop envJson j)) = true) :
+    roundTrip envJson (readTop envJson j) = normJ (readTop envJson j) ∧
+    roundTrip envJson (roundTrip envJson (readTop envJson j)) = roundTrip envJson (readTop envJson j) := by
+  have e1 := C01_deep _ h1
+  refine ⟨e1, ?_⟩
+  rw [e1, C01_deep _ h2]
+  exact normX_idem true _
+
+end APModel.Deep
+
